@@ -25,6 +25,10 @@ inductive PyVal
   | pinf | ninf | nan      -- float / Decimal infinities, float NaN
   | dtm (wall : Int) (off : Option Int)
   | date (ord : Int)
+  | bytes (b : Str)                          -- bytes (xsd:hexBinary / base64Binary): one character < 256 per byte
+  | tim (wall : Int) (off : Option Int)      -- datetime.time: microseconds of the day + UTC offset in µs or None
+  | dur (months : Int) (us : Int) (isDur : Bool)
+      -- datetime.timedelta (months = 0, isDur = false) or rdflib.xsd_datetime.Duration (years*12+months, tdelta in µs)
   deriving DecidableEq
 
 /-- extended rationals (no NaN): the numeric tower's keys -/
@@ -46,6 +50,9 @@ inductive VKey
   | num (x : XRat)
   | dtm (aware : Bool) (inst : Int)
   | date (ord : Int)
+  | bytes (b : Str)
+  | tim (aware : Bool) (inst : Int)
+  | dur (months : Int) (us : Int)
   deriving DecidableEq
 
 def PyVal.key? : PyVal → Option VKey
@@ -58,6 +65,10 @@ def PyVal.key? : PyVal → Option VKey
   | .dtm w none => some (.dtm false w)
   | .dtm w (some o) => some (.dtm true (w - o))
   | .date n => some (.date n)
+  | .bytes b => some (.bytes b)
+  | .tim w none => some (.tim false w)
+  | .tim w (some o) => some (.tim true (w - o))
+  | .dur m u _ => some (.dur m u)
 
 /-- the order of keys of one Python type (str: code points; numbers; date-times of one awareness, naive before
     aware as `_TOTAL_ORDER_CASTERS` partitions them; dates); keys of different types are unrelated -/
@@ -66,27 +77,43 @@ def VKey.lt : VKey → VKey → Bool
   | .num x, .num y => XRat.lt x y
   | .dtm a i, .dtm b j => (!a && b) || (a == b && decide (i < j))
   | .date m, .date n => decide (m < n)
+  | .bytes s, .bytes t => strLt s t
+  | .tim a i, .tim b j => (!a && b) || (a == b && decide (i < j))
+  -- only ever consulted between two timedeltas (months = 0): a Duration has no order (`PyVal.noOrder`)
+  | .dur m u, .dur m' u' => decide (m < m') || (m == m' && decide (u < u'))
   | _, _ => false
 
-/-- Python type class of a value: 0 str, 1 number (bool ⊂ int ⊂ …), 2 datetime, 3 date -/
+/-- Python type class of a value: 0 str, 1 number (bool ⊂ int ⊂ …), 2 datetime, 3 date, 4 bytes, 5 time,
+    6 timedelta / Duration (they are `==`-comparable with each other) -/
 def PyVal.cls : PyVal → Nat
   | .str _ => 0
   | .bool _ => 1 | .num _ => 1 | .pinf => 1 | .ninf => 1 | .nan => 1
   | .dtm _ _ => 2
   | .date _ => 3
+  | .bytes _ => 4
+  | .tim _ _ => 5
+  | .dur _ _ _ => 6
 
 def VKey.cls : VKey → Nat
-  | .str _ => 0 | .num _ => 1 | .dtm _ _ => 2 | .date _ => 3
+  | .str _ => 0 | .num _ => 1 | .dtm _ _ => 2 | .date _ => 3 | .bytes _ => 4 | .tim _ _ => 5 | .dur _ _ => 6
+
+/-- a value of a type that defines no order: `rdflib.xsd_datetime.Duration` (`>` with it raises TypeError) -/
+def PyVal.noOrder : PyVal → Bool
+  | .dur _ _ true => true
+  | _ => false
 
 /-- a naive and an aware datetime: Python refuses to order them -/
 def VKey.clash : VKey → VKey → Bool
   | .dtm a _, .dtm b _ => a != b
+  | .tim a _, .tim b _ => a != b
   | _, _ => false
 
-/-- Python `u > v` on values; `none` = `TypeError` (different type classes; a naive and an aware datetime).
+/-- Python `u > v` on values; `none` = `TypeError` (different type classes; a naive and an aware datetime or time;
+    a Duration on either side).
     A NaN is not greater than anything and nothing is greater than it. -/
 def PyVal.gt (u v : PyVal) : Option Bool :=
   if u.cls ≠ v.cls then none
+  else if u.noOrder || v.noOrder then none
   else
     match u.key?, v.key? with
     | some k, some k' => if VKey.clash k k' then none else some (VKey.lt k' k)
@@ -106,7 +133,7 @@ def castGt (u v : PyVal) : Bool :=
 
 /-- `type(self.value) in _TOTAL_ORDER_CASTERS and type(other.value) is type(self.value)` -/
 def usesCaster (u v : PyVal) : Bool :=
-  Tables.castsDatetime && u.cls == 2 && v.cls == 2
+  (Tables.castsDatetime && u.cls == 2 && v.cls == 2) || (Tables.castsTime && u.cls == 5 && v.cls == 5)
 
 /-- a literal with its value -/
 structure VLit where
@@ -275,7 +302,7 @@ inductive Fam
   /-- well-typed literals of the numeric datatypes (any mixture of them) with a number (not NaN) as value -/
   | numeric
   /-- literals of ONE non-numeric datatype `d` (plain = xsd:string) and one language tag, whose values are all of one
-      Python type `c` (and not NaN); in the xsd:string class the value is the lexical form -/
+      Python type `c` (not NaN, not a Duration — timedeltas are fine); in the xsd:string class the value is the lexical form -/
   | valued (d : Str) (lg : Option Str) (c : Nat)
   /-- literals of one datatype `d` (not xsd:string) and language without a value (ill-typed, unrecognised datatype) -/
   | lexical (d : Str) (lg : Option Str)
@@ -286,6 +313,7 @@ def Fam.mem : Fam → VLit → Bool
   | .valued d lg c, a =>
     !Tables.numericTypes.contains d && a.cdt == d && langKey a.lang == lg &&
     (match a.key? with | some k => k.cls == c | none => false) &&
+    (match a.val with | some u => !u.noOrder | none => true) &&
     (d != Tables.xsdString || a.val == some (.str a.lex))
   | .lexical d lg, a =>
     d != Tables.xsdString && a.dt == some d && langKey a.lang == lg && a.val.isNone
